@@ -64,7 +64,11 @@ func ruleResultAppendOnly(c *Ctx, r *Report, rule string) {
 					case name == "len":
 						r.ok(rule, fn+"/len", "length read")
 					default:
-						r.bad(rule, key+"/"+name, "vm.result is handed to "+name+" (it may be modified or aliased)", c.pos(sel.Pos()))
+						if c.paramReadOnly(p, sel) {
+							r.ok(rule, fn+"/passed-readonly/"+name, "handed to "+name+", which only ranges over / measures / reads it")
+						} else {
+							r.bad(rule, key+"/"+name, "vm.result is handed to "+name+" (it may be modified, re-sliced or aliased)", c.pos(sel.Pos()))
+						}
 					}
 				case *ast.RangeStmt:
 					if p.X == ast.Expr(sel) {
@@ -500,4 +504,32 @@ func checkC03(c *Ctx, r *Report) {
 	c.ownership(r, "fields-writers", "Block", "Fields", fieldsOwners, true)
 	ruleVMEffect(c, r, "vm-effect", true)
 	r.note("the contents of Fields for an arbitrary program (depends on run-time values)")
+}
+
+// paramReadOnly: arg is passed to a module function whose corresponding
+// parameter is only ranged over, measured with len, or indexed for reading
+// (checked on the SSA form: no store through it, no re-slicing, no append,
+// not returned, not stored, not passed on).
+func (c *Ctx) paramReadOnly(call *ast.CallExpr, arg ast.Expr) bool {
+	fn, ok := c.callee(call).(*types.Func)
+	if !ok || fn.Pkg() == nil || fn.Pkg().Path() != bclPath {
+		return false
+	}
+	idx := -1
+	for i, a := range call.Args {
+		if a == arg {
+			idx = i
+		}
+	}
+	sf := c.ssaFunc(fn)
+	if sf == nil || idx < 0 {
+		return false
+	}
+	if fn.Type().(*types.Signature).Recv() != nil {
+		idx++
+	}
+	if idx >= len(sf.Params) {
+		return false
+	}
+	return ssaReadOnly(sf.Params[idx], 0)
 }
